@@ -7,6 +7,7 @@ import (
 	"strings"
 
 	"github.com/vedadiyan/genql"
+	"github.com/vedadiyan/genql/vrt"
 	"verif/harness/core"
 	"verif/harness/gq"
 )
@@ -535,7 +536,9 @@ func (p *c18) runLiterals(r *core.CaseResult) {
 	doc := func() map[string]any {
 		return map[string]any{"t": []any{map[string]any{"n": 1.0}, map[string]any{"n": 2.0}, map[string]any{"n": 10.0}}}
 	}
-	three := func(v any) []any { return []any{map[string]any{"v": v}, map[string]any{"v": v}, map[string]any{"v": v}} }
+	three := func(v any) []any {
+		return []any{map[string]any{"v": v}, map[string]any{"v": v}, map[string]any{"v": v}}
+	}
 	cases := []struct {
 		sql  string
 		want []any
@@ -553,6 +556,58 @@ func (p *c18) runLiterals(r *core.CaseResult) {
 		{"SELECT FIRST((-n, n)) AS v, LAST((1, -2.5)) AS w FROM t WHERE n = 2", []any{map[string]any{"v": -2.0, "w": -2.5}}},
 		{"SELECT ARRAY((~n, -n + 1, CASE WHEN n > 1 THEN 'big' ELSE 'small' END)) AS v FROM t WHERE n = 2", []any{map[string]any{"v": []any{[]any{-3.0, -1.0, "big"}}}}},
 		{"SELECT ELEMENTAT((0, -1, 2), 1) AS v FROM t WHERE n = 1", []any{map[string]any{"v": -1.0}}},
+	}
+	// results are the caller's: arrays inside a result are edited, the same Query is executed again
+	for _, sql := range []string{"SELECT ARRAY(1, 2) AS v, ARRAY(n, 'x') AS w, CHANGETYPE(n, 'array') AS x, UNWIND(ARRAY(ARRAY(1), 2)) AS y FROM t", "SELECT FIRST(ARRAY(ARRAY(1, 2))) AS v, ARRAY(ARRAY(3)) AS w FROM t"} {
+		var first, second string
+		var err1, err2 error
+		vrt.Run(gq.Seq, nil, func() {
+			defer func() { recover() }()
+			q, err := genql.New(doc(), sql)
+			if err != nil {
+				err1 = err
+				return
+			}
+			rows, err := q.Exec()
+			err1 = err
+			first = gq.Render(rows)
+			var edit func(v any)
+			edit = func(v any) {
+				switch t := v.(type) {
+				case []any:
+					for i := range t {
+						edit(t[i])
+						t[i] = "edited"
+					}
+				case map[string]any:
+					for _, x := range t {
+						edit(x)
+					}
+				}
+			}
+			edit(any(rows))
+			rows2, err := q.Exec()
+			err2 = err
+			second = gq.Render(rows2)
+		})
+		r.Execs += 2
+		if err1 != nil || err2 != nil || first != second {
+			r.Fail("C18|literals|result-shared-between-evaluations", fmt.Sprintf("%s: first Exec %s (%v); after the caller edited the arrays inside that result, the same Query returns %s (%v)", sql, first, err1, second, err2), map[string]any{"sql": sql})
+		}
+		// and within one result: the arrays of different rows are different arrays
+		o := gq.Run(doc(), sql)
+		if len(o.Rows) > 1 {
+			if m, ok := o.Rows[0].(map[string]any); ok {
+				for _, v := range m {
+					if a, isArr := v.([]any); isArr && len(a) > 0 {
+						a[0] = "edited"
+					}
+				}
+			}
+			if strings.Contains(gq.Render(o.Rows[1:]), "edited") {
+				r.Fail("C18|literals|result-shared-between-rows", fmt.Sprintf("%s: editing an array in row 0 of the result shows in another row: %s", sql, gq.Render(o.Rows)), map[string]any{"sql": sql})
+			}
+		}
 	}
 	for round := 0; round < 2; round++ {
 		for _, c := range cases {
